@@ -321,15 +321,46 @@ func (e *Exec) execInstr(f *frame, in ssa.Instruction, h *Heap, g string) (*Heap
 			}
 		}
 	case *ssa.Go:
+		if e.topSpec != nil && e.topSpec.SpawnChecked && !x.Call.IsInvoke() && e.specDepth == 0 && e.pure == 0 {
+			// "spawned checked": the spawned body is run once from the state of the go statement, so that the
+			// call-site clauses of the contract under verification (atcall ..., atcall chansend ...) are checked
+			// inside it; nothing it does is kept (the starter continues from its own state, as before)
+			fnv := e.val(f, x.Call.Value)
+			var args []Val
+			for _, a := range x.Call.Args {
+				args = append(args, e.val(f, a))
+			}
+			var sfn *ssa.Function
+			var binds []Val
+			if fnv.Clo != nil {
+				sfn, binds = fnv.Clo.fn, fnv.Clo.bindings
+			} else if fn, ok := x.Call.Value.(*ssa.Function); ok {
+				sfn = fn
+			} else if fnv.Fn != nil {
+				sfn = fnv.Fn
+			}
+			if sfn != nil && len(sfn.Blocks) > 0 {
+				savedPriv := append([]*privRef{}, e.priv...)
+				savedAll := append([]string{}, e.allAllocs...)
+				var rt types.Type = sfn.Signature.Results()
+				e.inline(f, in, sfn, args, binds, rt, h.clone(), g)
+				e.priv, e.allAllocs = savedPriv, savedAll
+				e.eng.assumes["goroutine bodies started by "+e.topFrame.fn.Name()+" are checked against its call-site clauses from the state of the go statement (interleavings with the starter are not explored)"] = true
+			} else {
+				e.drop("go statement (spawned body not followed)")
+			}
+		} else {
+			e.drop("go statement (spawned body not followed)")
+		}
 		for _, a := range x.Call.Args {
 			e.escape(e.val(f, a))
 		}
 		if !x.Call.IsInvoke() {
 			e.escape(e.val(f, x.Call.Value))
 		}
-		e.drop("go statement (spawned body not followed)")
 	case *ssa.Send:
 		e.escape(e.val(f, x.X))
+		e.chanSendAsserts(f, in, e.val(f, x.X), h, g)
 		e.drop("channel send")
 	case *ssa.Select:
 		e.set(f, x, e.freshVal("select", x.Type()))
